@@ -238,3 +238,165 @@ def specSpvGlobal (t : Ty) : List Nat :=
   if spvNeedsWrapper t then 0 :: (matStrideOf t ++ specSpvDump t) else specSpvDump t
 
 end Naga.Layout
+
+namespace Naga.Layout
+
+/-! ## Byte offset of an access path (HLSL byte-address arithmetic must produce exactly this) -/
+
+inductive PathElem where
+  | member (k : Nat)      -- struct member k
+  | index (k : Nat)       -- array element k
+  | column (k : Nat)      -- matrix column k
+  | comp (k : Nat)        -- vector component k
+  deriving Repr, Inhabited
+
+def nthMember : Members → Nat → Nat → Option (Ty × Nat)
+  | .nil, _, _ => none
+  | .cons t a s rest, cur, 0 => some (t, specRound (if a = 0 then specAlign t else a) cur)
+  | .cons t a s rest, cur, k + 1 =>
+    nthMember rest (specRound (if a = 0 then specAlign t else a) cur + (if s = 0 then specSize t else s)) k
+
+/-- Offset of the place reached by `path` inside a value of type `t` laid out by the WGSL rules. -/
+def offsetOfPath : Ty → List PathElem → Option Nat
+  | _, [] => some 0
+  | .struct ms, .member k :: rest => do
+    let (t, off) ← nthMember ms 0 k
+    some (off + (← offsetOfPath t rest))
+  | .arr e _, .index k :: rest => do
+    some (k * specRound (specAlign e) (specSize e) + (← offsetOfPath e rest))
+  | .mat _ r w, .column k :: rest => do
+    some (k * (vecFactor r * w) + (← offsetOfPath (.vec r w) rest))
+  | .vec _ w, .comp k :: rest => do some (k * w + (← offsetOfPath (.scalar w) rest))
+  | _, _ => none
+
+/-! ## C++ / MSL layout of the struct definitions the MSL back end writes -/
+
+/-- A field of an emitted MSL struct: element type name, array length (0 = not an array), and
+whether it is one of naga's `char _padN[k]` fillers. -/
+structure MslField where
+  ty : String
+  name : String
+  len : Nat
+  deriving Repr, Inhabited
+
+structure MslDecl where
+  name : String
+  fields : List MslField        -- a `typedef T name[1]` is a decl with one field of len 1 and `isTypedef`
+  isTypedef : Bool
+  parsed : Bool := true         -- false: the declaration contained a line the reader did not understand
+  deriving Repr, Inhabited
+
+def MslField.isPad (f : MslField) : Bool := f.ty == "char" && f.name.startsWith "_pad"
+
+/-- (size, alignment) of a builtin MSL type name (Metal Shading Language spec, tables 2.1–2.5). -/
+def mslBuiltin (n : String) : Option (Nat × Nat) :=
+  let n := if n.startsWith "metal::" then (n.drop 7).toString else n
+  let scalar (s : String) : Option Nat :=
+    match s with
+    | "float" | "int" | "uint" | "atomic_int" | "atomic_uint" => some 4
+    | "half" | "short" | "ushort" => some 2
+    | "char" | "uchar" | "bool" => some 1
+    | "long" | "ulong" => some 8
+    | _ => none
+  match scalar n with
+  | some w => some (w, w)
+  | none =>
+    -- packed_T3
+    if n.startsWith "packed_" then
+      let r := (n.drop 7).toString
+      match scalar (r.dropEnd 1).toString, (r.takeEnd 1).toString.toNat? with
+      | some w, some k => some (k * w, w)
+      | _, _ => none
+    else
+      -- matrices TCxR, vectors Tk
+      let digits := n.toList.filter Char.isDigit
+      let base := String.ofList (n.toList.takeWhile (fun c => !c.isDigit))
+      match scalar base, digits with
+      | some w, [k] =>
+        let k := k.toNat - 48
+        let sz := (if k = 3 then 4 else k) * w
+        some (sz, sz)
+      | some w, [c, r] =>
+        if n.contains 'x' then
+          let c := c.toNat - 48
+          let r := r.toNat - 48
+          let col := (if r = 3 then 4 else r) * w
+          some (c * col, col)
+        else none
+      | _, _ => none
+
+def cppRound (a n : Nat) : Nat := if a = 0 then n else ((n + a - 1) / a) * a
+
+/-- (size, align) of a type name under the C++ layout rules, given the emitted declarations. -/
+def cppSizeAlign (decls : List MslDecl) : Nat → String → Option (Nat × Nat)
+  | 0, _ => none
+  | fuel + 1, n =>
+    match mslBuiltin n with
+    | some r => some r
+    | none =>
+      match decls.find? (·.name == n) with
+      | none => none
+      | some d =>
+        if !d.parsed then none else
+        if d.isTypedef then
+          match d.fields with
+          | [f] => do let (s, a) ← cppSizeAlign decls fuel f.ty; some (s * f.len, a)
+          | _ => none
+        else do
+          let mut off := 0
+          let mut al := 1
+          for f in d.fields do
+            let (s, a) ← cppSizeAlign decls fuel f.ty
+            off := cppRound a off + s * (if f.len = 0 then 1 else f.len)
+            al := max al a
+          some (cppRound al off, al)
+
+/-- Offsets/strides/sizes the C++ layout gives, in the same traversal order as `specDump` minus leaf
+sizes: struct: sizeof :: (offset_i :: dump field_i) for non-pad fields; array wrapper
+(`struct {T inner[N]}`) and typedef arrays: sizeof(T) :: dump T; leaves: nothing. -/
+def cppDump (decls : List MslDecl) : Nat → String → Option (List Nat)
+  | 0, _ => none
+  | fuel + 1, n =>
+    match mslBuiltin n with
+    | some _ => some []
+    | none =>
+      match decls.find? (·.name == n) with
+      | none => none
+      | some d =>
+        match d.fields with
+        | [f] =>
+          if d.isTypedef || (f.name == "inner" && f.len != 0) then do
+            -- array: stride then element
+            let (s, _) ← cppSizeAlign decls fuel f.ty
+            some (s :: (← cppDump decls fuel f.ty))
+          else cppDumpStruct decls fuel n d
+        | _ => cppDumpStruct decls fuel n d
+where
+  cppDumpStruct (decls : List MslDecl) (fuel : Nat) (n : String) (d : MslDecl) : Option (List Nat) := do
+    let (sz, _) ← cppSizeAlign decls (fuel + 1) n
+    let mut off := 0
+    let mut out : List Nat := [sz]
+    for f in d.fields do
+      let (s, a) ← cppSizeAlign decls fuel f.ty
+      let o := cppRound a off
+      if !f.isPad then
+        out := out ++ [o]
+        if f.len = 0 then out := out ++ (← cppDump decls fuel f.ty)
+        else out := out ++ [s] ++ (← cppDump decls fuel f.ty)
+      off := o + s * (if f.len = 0 then 1 else f.len)
+    some out
+
+mutual
+  /-- `specDump` without the sizes of scalar/vector/matrix leaves. -/
+  def specDumpNoLeaf : Ty → List Nat
+    | .arr e _ => specRound (specAlign e) (specSize e) :: specDumpNoLeaf e
+    | .struct ms => specRound (specAlignMs ms) (specEndMs ms 0) :: specDumpNoLeafMs ms 0
+    | _ => []
+  def specDumpNoLeafMs : Members → Nat → List Nat
+    | .nil, _ => []
+    | .cons t a s rest, cur =>
+        let off := specRound (if a = 0 then specAlign t else a) cur
+        off :: (specDumpNoLeaf t ++ specDumpNoLeafMs rest (off + (if s = 0 then specSize t else s)))
+end
+
+end Naga.Layout
